@@ -63,6 +63,36 @@ CHECKS = {
         "Trusted: reference order rules (det/psort in vf/refmodel.py); the 'outermost level carries a sort' gate for selection/calculation reads the public Select marker attributes.",
         "DESIGN.md 3 C11",
     ),
+    "C14": (
+        "explicit-state BFS over three-engine programs with every preferred-engine option; node-local invariants on every reached tree",
+        "Every tree reachable by programs over the iteration, SQL and three-engine alphabets (transfers, materializations, cross-engine joins, engine-restricted functions, all backtrack/transfer/require_preferred_engine combinations) up to the depth bound is walked completely (target/lhs/rhs/skip_to) and the node-local invariants of C14 are evaluated; documented no-ops must return the identical object and predicted ill-formed calls must raise.",
+        "Trusted: the walker reads public attributes only; reference typing decides which calls are ill-formed.",
+        "DESIGN.md 3 C14",
+    ),
+    "C16": (
+        "explicit-state BFS over programs incl. doomed/identity leaves; Diagnostics with and without a truthful executor vs reference emptiness",
+        "Every program up to the depth bound over alphabets extended with doomed and join-identity leaves, trivially false predicates and zero-limit slices: Diagnostics.run without executor must never doom a relation the reference says has rows; with an executor that really executes the sub-relation it must be exact; every doomed verdict must carry a message.",
+        "Trusted: reference evaluator for emptiness; single-engine trees; programs with undetermined emptiness are skipped and counted.",
+        "DESIGN.md 3 C16",
+    ),
+    "C17": (
+        "explicit-state BFS over SQL programs plus exhaustive bottom-up raw-tree assembly; conform identity/idempotence, rows, marker coherence",
+        "For every API-built SQL tree: conform(x) is x and every Select marker is coherent; for every raw tree assembled without the engine (all sequences of 17 raw operations up to depth 3-4 incl. chain and join nodes): conform(raw) returns the reference rows on SQLite, is idempotent and coherent.",
+        "Trusted: reference evaluator; raw assembly uses the documented _finish_apply hook; rows compared as multisets.",
+        "DESIGN.md 3 C17",
+    ),
+    "C18": (
+        "explicit-state BFS over iteration trees with instrumented leaf payloads; counters are the state invariant",
+        "Every tree over the lazy operation set up to depth 4-5 and every tree mixing in eager operations up to depth 3-4, over leaf payloads that count iteration starts and pulls: execute() of a lazy tree touches no leaf; every full iteration starts at most one pass per leaf occurrence; eager inputs are consumed at most once at execute time; materialization caches are not recomputed; repeated iterations give identical rows.",
+        "Trusted: instrumentation subclasses of the public payload classes; reference evaluator for the rows.",
+        "DESIGN.md 3 C18",
+    ),
+    "C20": (
+        "explicit-state BFS over well-typed states x exhaustive menu of single ill-typing edits x all preferred-engine flag combinations",
+        "At every well-typed state of the iteration, SQL and three-engine explorations every edit of the ill-typing menu is issued plain and through every preferred-engine flag combination; edits that the reference typing finds ill-formed for that target must raise the documented class, return nothing and leave all existing relations' fingerprints unchanged.",
+        "Trusted: reference typing (which edits are ill-formed, which classes are allowed).",
+        "DESIGN.md 3 C20",
+    ),
 }
 
 NOT_YET = "check not built yet in this revision (planned, see DESIGN.md section 3)"
